@@ -183,10 +183,12 @@ class PosePath3D(object):
                 self._poses_se3.append(self._poses_se3[j].dot(rel_poses[i]))
         else:
             self._poses_se3 = [np.dot(t, p) for p in self.poses_se3]
-        if not lie.is_se3(t):
+        s = lie.sim3_scale(t)
+        if abs(s - 1.0) > 1e-12:
             # Sim(3): the scale only applies to the positions, keep the
             # rotation blocks of the poses valid SO(3) matrices.
-            s = lie.sim3_scale(t)
+            # (Decided on the scale itself - is_se3() is tolerant and would
+            # treat scales close to 1 as rigid.)
             for p in self._poses_se3:
                 p[:3, :3] /= s
         self._positions_xyz, self._orientations_quat_wxyz \
